@@ -406,6 +406,37 @@ def l5_l6(ck, F, tier):
                     oks = oks and v == want
         ck.inst("L6", "statistics-selection", oks, fb.span, "(force_ldpc, bch) -> ldpc if forced, bch when present, else ldpc: %s" % (
             "as required" if oks else {k: repr(v)[:40] for k, v in got_sel.items()}))
+    # the requested Eb/N0 values: min + k*step for k = 0 .. floor((max - min)/step), one simulated point (and so one result line) each
+    from ..idioms import as_closure
+    from ..symx import Rat, unkey
+    rb_ = F.body((RUN % "ber").replace("cli::ber::Args", "cli::ber::Args<Dec>"))
+    tg = Tracer(F, r".*BerTestBuilder.*::build", mode="real", inline=lambda p: F.private_helper(p, "cli::"))
+    envg = {}
+    tg.bind(rb_.params[0], var("self"), envg)
+    try:
+        tg.eval(rb_.value, envg)
+    except Unsupported as e:
+        raise AnalysisError("cli::ber::run: unreadable shape: %s" % e)
+    builds = [e for e in tg.events if e.callee.endswith("::build") and isinstance(e.args[0], tuple) and e.args[0][0] == "struct"]
+    okg = False
+    whyg = "the BerTestBuilder literal was not found"
+    if len(builds) == 1:
+        ev_ = builds[0].args[0][2].get("ebn0s_db")
+        ea_ = single_atom(ev_) if isinstance(ev_, Poly) else None
+        d_ = unkey(ea_[2]) if ea_ is not None and atom_fn(ea_) == "std::iter::Iterator::collect" and isinstance(ea_[2], tuple) and ea_[2][0] == "iterdesc" else None
+        whyg = "ebn0s_db = %r" % (ev_,)
+        if d_ is not None and d_[1][0] == "map" and d_[1][1][0] == "range":
+            _, lo_, hi_, incl_ = d_[1][1][:4]
+            lo_, hi_ = unkey(lo_), unkey(hi_)
+            MIN, MAX, STEP = var("self.min_ebn0"), var("self.max_ebn0"), var("self.step_ebn0")
+            want_n = app("cast_usize", app("floor", Rat(MAX - MIN, STEP))) + num(1)
+            try:
+                fk = tg.apply(as_closure(F, tg, d_[1][2]), [var("k")])
+            except Unsupported:
+                fk = None
+            okg = lo_ == num(0) and ((not incl_ and hi_ == want_n) or (incl_ and hi_ == want_n - num(1))) and fk == MIN + STEP * var("k")
+            whyg = "Eb/N0 points: k in %r..%r, value %r ; required k in 0..floor((max-min)/step)+1, value min + k*step" % (lo_, hi_, fk)
+    ck.inst("L6", "ebn0-grid", okg, rb_.span, whyg[:500])
     wb = F.body("cli::ber::Progress::work")
     # private helpers of Progress (e.g. an extracted "write the line to the output files") are expanded
     tw = Tracer(F, r"std::io::Write::write_fmt|cli::ber::Progress::format_progress", mode="int",
